@@ -788,8 +788,16 @@ pub fn apply_model(pool: &mut Pool, op: &Op) -> Out {
         Extend { kind, items, .. } => extend_model(m!(), *kind, items, None),
         Write { pieces, .. } => {
             let mm = m!();
-            for p in pieces {
-                write!(mm, "{}", p).unwrap();
+            for (i, p) in pieces.iter().enumerate() {
+                match i % 3 {
+                    0 => write!(mm, "{}", p).unwrap(),
+                    1 => mm.write_str(p).unwrap(),
+                    _ => {
+                        for c in p.chars() {
+                            mm.write_char(c).unwrap()
+                        }
+                    }
+                }
             }
         }
         RetainPanic { salt, k, .. } => {
@@ -1067,8 +1075,16 @@ fn apply_real_inner(pool: &mut Pool, op: &Op, info: &mut StepInfo) -> Out {
         }
         Write { pieces, .. } => {
             let l = ls!();
-            for p in pieces {
-                write!(l, "{}", p).unwrap();
+            for (i, p) in pieces.iter().enumerate() {
+                match i % 3 {
+                    0 => write!(l, "{}", p).unwrap(),
+                    1 => l.write_str(p).unwrap(),
+                    _ => {
+                        for c in p.chars() {
+                            l.write_char(c).unwrap()
+                        }
+                    }
+                }
             }
         }
         OptionRoundTrip { .. } => {
